@@ -83,34 +83,54 @@ def make_lattice(ls, sites):
 
 
 def apply_call(m, c):
+    """one add_* call; optional arguments are passed only when the specification names them (so that the defaults of the
+    implementation are exercised as well)"""
     fn = c['fn']
     s = dec(c['strength'])
+    if c.get('strength_as_list') and isinstance(s, np.ndarray):
+        s = s.tolist()
+    kw = {}
+    if 'category' in c:
+        kw['category'] = c['category']
+    if 'op_string' in c and fn not in ('add_coupling_term', 'add_multi_coupling_term'):
+        kw['op_string'] = c['op_string']
+    if c.get('plus_hc') is not None:
+        kw['plus_hc'] = c['plus_hc']
     if fn == 'add_onsite':
-        m.add_onsite(s, c['u'], c['op'], plus_hc=c.get('plus_hc', False))
+        m.add_onsite(s, c['u'], c['op'], **kw)
     elif fn == 'add_coupling':
-        m.add_coupling(s, c['u1'], c['op1'], c['u2'], c['op2'], c['dx'], plus_hc=c.get('plus_hc', False))
+        if c.get('flux') is not None:
+            s = m.coupling_strength_add_ext_flux(s, c['dx'], c['flux'])
+        m.add_coupling(s, c['u1'], c['op1'], c['u2'], c['op2'], c['dx'], **kw)
     elif fn == 'add_multi_coupling':
         ops = [(o, dx, u) for o, dx, u in c['ops']]
-        kw = {}
         if c.get('switchLR') is not None:
             kw['switchLR'] = c['switchLR']
-        m.add_multi_coupling(s, ops, plus_hc=c.get('plus_hc', False), **kw)
+        m.add_multi_coupling(s, ops, **kw)
     elif fn == 'add_exponentially_decaying_coupling':
-        m.add_exponentially_decaying_coupling(s, dec(c['lambda']), c['op_i'], c['op_j'], c.get('subsites'),
-                                              c.get('subsites_start'), plus_hc=c.get('plus_hc', False))
+        if 'subsites_start' in c:
+            m.add_exponentially_decaying_coupling(s, dec(c['lambda']), c['op_i'], c['op_j'], c.get('subsites'),
+                                                  c.get('subsites_start'), **kw)
+        elif 'subsites' in c:
+            m.add_exponentially_decaying_coupling(s, dec(c['lambda']), c['op_i'], c['op_j'], subsites=c['subsites'], **kw)
+        else:
+            m.add_exponentially_decaying_coupling(s, dec(c['lambda']), c['op_i'], c['op_j'], **kw)
     elif fn == 'add_exponentially_decaying_centered_terms':
         m.add_exponentially_decaying_centered_terms(s, dec(c['lambda']), c['op_i'], c['op_j'], c['i'],
-                                                    c.get('subsites'), plus_hc=c.get('plus_hc', False))
+                                                    c.get('subsites'), **kw)
     elif fn == 'add_local_term':
-        m.add_local_term(s, [(o, idx) for o, idx in c['term']], plus_hc=c.get('plus_hc', False))
+        m.add_local_term(s, [(o, idx) for o, idx in c['term']], **kw)
     elif fn == 'add_onsite_term':
-        m.add_onsite_term(s, c['i'], c['op'], plus_hc=c.get('plus_hc', False))
+        m.add_onsite_term(s, c['i'], c['op'], **kw)
     elif fn == 'add_coupling_term':
-        m.add_coupling_term(s, c['i'], c['j'], c['op_i'], c['op_j'], c.get('op_string', 'Id'),
-                            plus_hc=c.get('plus_hc', False))
+        if 'op_string' in c:
+            m.add_coupling_term(s, c['i'], c['j'], c['op_i'], c['op_j'], c['op_string'], **kw)
+        else:
+            m.add_coupling_term(s, c['i'], c['j'], c['op_i'], c['op_j'], **kw)
     elif fn == 'add_multi_coupling_term':
-        m.add_multi_coupling_term(s, c['ijkl'], c['ops'], c['op_string'], plus_hc=c.get('plus_hc', False),
-                                  switchLR=c.get('switchLR', 'middle_i'))
+        if c.get('switchLR') is not None:
+            kw['switchLR'] = c['switchLR']
+        m.add_multi_coupling_term(s, c['ijkl'], c['ops'], c['op_string'], **kw)
     else:
         raise ValueError(fn)
 
@@ -606,6 +626,204 @@ def export_model(m, rec, spec, want, nwin, unsorted_H=None):
                     rec.mats['H_enlarged_bond'] = bonds_dense_window(m2.H_bond, m2.lat.mps_sites(), N, False)
                 return contract_mpo(H2, N)
             rec.run('H_enlarged', enlarged)
+    if 'extra' in want:
+        export_extra(m, rec, spec, nwin, has_bond, Hb if has_bond else None)
+
+
+def product_states(m, seed):
+    """two product states in the sites' own bases (same total charge: the second is the first with two sites of equal type
+    exchanged) and normalised complex amplitudes, all derived from the integer `seed` of the case"""
+    import random
+    rr = random.Random(seed)
+    sites = m.lat.mps_sites()
+    L = len(sites)
+    p1 = [rr.randrange(s.dim) for s in sites]
+    p2 = None
+    pairs = [(a, b) for a in range(L) for b in range(a + 1, L)
+             if p1[a] != p1[b] and sites[a].dim == sites[b].dim and np.array_equal(sites[a].leg.to_qflat(), sites[b].leg.to_qflat())]
+    if pairs:
+        a, b = rr.choice(pairs)
+        p2 = list(p1)
+        p2[a], p2[b] = p1[b], p1[a]
+    t, ph = rr.uniform(0.3, 1.2), rr.uniform(-3, 3)
+    return p1, p2, [np.cos(t), 0.0], [np.sin(t) * np.cos(ph), np.sin(t) * np.sin(ph)]
+
+
+def export_extra(m, rec, spec, nwin, has_bond, Hb):
+    """representations / accessors beyond the basic ones: exporters of wave functions, ExactDiag options (charge_sector, sparse,
+    from_infinite_model, mps_to_full + matvec), bond energies, NearestNeighborModel.from_MPOModel, group_sites(3) and given
+    grouped_sites, enlarge_mps_unit_cell(3), extract_segment(enlarge=), TermList / container accessors, test_sanity"""
+    from tenpy.algorithms import exact_diag as ED
+    from tenpy.models import model as M
+    from tenpy.networks import site as Sm
+    from tenpy.networks.mps import MPS
+    from tenpy.networks.terms import ExponentiallyDecayingTerms, TermList
+    lat = m.lat
+    sites = lat.mps_sites()
+    L = lat.N_sites
+    finite = lat.bc_MPS == 'finite'
+    N = L if finite else nwin * L
+    out = rec.info
+    H = m.H_MPO
+    seed = int(spec.get('psi_seed', 0))
+    # ---- sanity checks of the containers must accept every valid model
+    try:
+        m.test_sanity()
+        if isinstance(m, M.CouplingModel):
+            m.exp_decaying_terms._test_terms(sites)
+    except Exception as e:
+        rec.errors['test_sanity'] = type(e).__name__ + ': ' + str(e)[:200]
+    # ---- charges of the local basis states (for the charge-sector oracle)
+    out['qmod'] = [int(x) for x in sites[0].leg.chinfo.mod]
+    out['qflat'] = [(s.leg.to_qflat() * s.leg.qconj).tolist() for s in sites]
+    if finite:
+        p1, p2, al, be = product_states(m, seed)
+        out['psi'] = {'p1': p1, 'p2': p2, 'alpha': al, 'beta': be}
+        psi = None
+        try:
+            psi = MPS.from_product_state(sites, p1, 'finite', permute=False, unit_cell_width=lat.mps_unit_cell_width)
+            psi1 = psi
+            if p2 is not None:
+                psi2 = MPS.from_product_state(sites, p2, 'finite', permute=False, unit_cell_width=lat.mps_unit_cell_width)
+                psi = psi.add(psi2, complex(*al), complex(*be))
+                psi.canonical_form()
+            out['psi_norm'] = float(psi.norm)
+        except Exception as e:
+            rec.errors['psi'] = type(e).__name__ + ': ' + str(e)[:200]
+            psi = None
+        if psi is not None:
+            rec.run('wf_undo', lambda: ED.get_full_wavefunction(psi))
+            rec.run('wf_noundo', lambda: ED.get_full_wavefunction(psi, undo_sort_charge=False))
+            rec.run('E_mpo', lambda: np.array(H.expectation_value(psi)))
+
+            def matvec():
+                ed = ED.ExactDiag(m)
+                ed.build_full_H_from_mpo()
+                v = ed.mps_to_full(psi)
+                return ed.matvec(v).split_legs().to_ndarray().reshape(-1)
+            rec.run('ed_matvec', matvec)
+
+            def sector(from_bonds):
+                cs = psi1.get_total_charge()
+                mm = m
+                if from_bonds:
+                    mm = M.NearestNeighborModel(lat, Hb)
+                ed = ED.ExactDiag(mm, charge_sector=cs)
+                if from_bonds:
+                    ed.build_full_H_from_bonds()
+                else:
+                    ed.build_full_H_from_mpo()
+                v = ed.mps_to_full(psi)
+                rec.mats['sector_psi' + ('_b' if from_bonds else '')] = v.to_ndarray()
+                rec.mats['sector_Hpsi' + ('_b' if from_bonds else '')] = ed.matvec(v).to_ndarray()
+                rec.info['sector'] = [int(x) for x in cs]
+                return ed.full_H.to_ndarray()
+            rec.run('H_ed_sector', lambda: sector(False))
+            if has_bond and L >= 3:
+                rec.run('H_ed_sector_bonds', lambda: sector(True))
+            if has_bond and isinstance(m, M.NearestNeighborModel):
+                rec.run('bond_energies', lambda: np.array(m.bond_energies(psi)))
+
+        def ed_sparse():
+            ed = ED.ExactDiag(m, sparse=True)
+            ed.build_full_H_from_mpo()
+            return npc_dense(ed.full_H, L)
+        rec.run('H_ed_sparse', ed_sparse)
+        if has_bond and L >= 3:
+            nn = M.NearestNeighborModel(lat, Hb)
+            rec.run('H_np_nnmodel_noundo', lambda: ED.get_numpy_Hamiltonian(nn, from_mpo=False, undo_sort_charge=False))
+
+            def both(from_mpo):
+                mm = M.MPOModel(lat, H)
+                mm.H_bond = list(Hb)
+                return ED.get_numpy_Hamiltonian(mm, from_mpo=from_mpo)
+            rec.run('H_np_both_from_bond', lambda: both(False))
+            rec.run('H_np_both_from_mpo', lambda: both(True))
+    if has_bond and L >= 2:
+        def from_mpomodel():
+            nn2 = M.NearestNeighborModel.from_MPOModel(m)
+            return bonds_dense_window(nn2.H_bond, sites, N, finite)
+        rec.run('H_bond_from_MPOModel_cls', from_mpomodel)
+    # ---- representation-changing options with non-default arguments
+    if finite or L % 3 == 0:
+        def grouped3():
+            m2 = m.copy()
+            m2.group_sites(3)
+            H2 = m2.H_MPO
+            n2 = H2.L if finite else (N // 3)
+            if not finite and N % 3 != 0:
+                return None
+            a = contract_mpo(H2, n2)
+            if has_bond and isinstance(m2, M.NearestNeighborModel) and n2 >= 2:
+                rec.mats['H_group3_bond'] = bonds_dense_window(m2.H_bond, m2.lat.mps_sites(), n2, finite)
+            return a
+        rec.run('H_group3', grouped3)
+    if L % 2 == 0 or finite:
+        def grouped_given():
+            m2 = m.copy()
+            gs = Sm.group_sites(lat.mps_sites(), 2, charges='same')
+            ret = m2.group_sites(2, grouped_sites=gs)
+            assert ret is gs or list(ret) == list(gs)
+            n2 = m2.H_MPO.L if finite else (N // 2)
+            return contract_mpo(m2.H_MPO, n2)
+        if finite or N % 2 == 0:
+            rec.run('H_group_given', grouped_given)
+    if not finite:
+        def enlarged3():
+            m2 = m.copy()
+            m2.enlarge_mps_unit_cell(3)
+            if has_bond and isinstance(m2, M.NearestNeighborModel):
+                rec.mats['H_enlarged3_bond'] = bonds_dense_window(m2.H_bond, m2.lat.mps_sites(), N, False)
+            return contract_mpo(m2.H_MPO, N)
+        rec.run('H_enlarged3', enlarged3)
+
+        def segment_enlarge():
+            m2 = m.extract_segment(enlarge=nwin)
+            H2 = m2.H_MPO
+            rec.info['segment_enlarge_L'] = int(H2.L)
+            if has_bond and isinstance(m2, M.NearestNeighborModel) and H2.L >= 2:
+                rec.mats['H_segment_enlarge_bond'] = bonds_dense_window(m2.H_bond, m2.lat.mps_sites(), H2.L, True)
+            return contract_mpo(H2, H2.L)
+        rec.run('H_segment_enlarge', segment_enlarge)
+        seg = out.get('segment') if spec.get('segment') == 'auto' else spec.get('segment')
+        if seg is not None:
+            def from_infinite():
+                ed = ED.ExactDiag.from_infinite_model(m, first=seg[0], last=seg[1])
+                ed.build_full_H_from_mpo()
+                return npc_dense(ed.full_H, seg[1] - seg[0] + 1)
+            rec.run('H_ed_from_infinite', from_infinite)
+    # ---- accessors of the term containers / TermList
+    if isinstance(m, M.CouplingModel):
+        ot = m.all_onsite_terms()
+        ot.remove_zeros()
+        ct = m.all_coupling_terms()
+        ct.remove_zeros()
+        edt = m.exp_decaying_terms
+        try:
+            tl = ot.to_TermList() + ct.to_TermList()
+            acc = {'ct_max_range': int(ct.max_range()), 'ot_max_range': int(ot.max_range()),
+                   'edt_max_range': (None if edt.is_empty else repr(edt.max_range())), 'tl_max_range': int(tl.max_range()),
+                   'tl_limits': [int(x) for x in tl.limits()] if tl.terms else None,
+                   'tl_shift': export_termlist(tl.shift(L)), 'tl_mul': export_termlist(tl * 2.5),
+                   'tl_iter': [[[[op, int(i)] for op, i in term], cnum(st)] for term, st in tl]}
+            e2 = ExponentiallyDecayingTerms(L)
+            e2 += edt
+            acc['exp_iadd'] = export_exp(e2)
+            if not finite and not edt.is_empty:
+                cut = float(spec.get('exp_cutoff', 1e-3))
+                acc['termlist_exp_infinite'] = export_termlist(edt.to_TermList(cutoff=cut, bc='infinite'))
+                acc['exp_cutoff'] = cut
+            # TermList.from_lattice_locations on the add_local_term calls of the specification
+            loc = [c for c in (spec.get('calls') or []) if c['fn'] == 'add_local_term']
+            if loc:
+                shift = spec.get('tl_shift')
+                terms = [[(o, idx) for o, idx in c['term']] for c in loc]
+                tl2 = TermList.from_lattice_locations(lat, terms, [complex(np.asarray(dec(c['strength'])).reshape(-1)[0]) for c in loc],
+                                                      **({} if shift is None else {'shift': shift}))
+                acc['tl_from_lattice'] = export_termlist(tl2)
+            out['accessors'] = acc
+        except Exception as e:
+            rec.errors['accessors'] = type(e).__name__ + ': ' + str(e)[:200] + ' @ ' + traceback.format_exc().strip().split('\n')[-3][:160]
 
 
 def run_spec(case, npz_path):
@@ -614,7 +832,7 @@ def run_spec(case, npz_path):
     rec = Recorder()
     sites = [make_site(s) for s in spec['sites']]
     lat = make_lattice(spec['lattice'], sites)
-    want = case.get('want', ['bond', 'exporters', 'convert', 'options'])
+    want = case.get('want', ['bond', 'exporters', 'convert', 'options', 'extra'])
 
     class TheModel(M.CouplingModel, M.MPOModel):
         pass
@@ -681,6 +899,7 @@ def run_predefined(case, npz_path):
     if m.lat.N_sites > case.get('max_sites', 8) or int(np.prod([s.dim for s in m.lat.mps_sites()] * (1 if m.lat.bc_MPS == 'finite' else case.get('nwin', 2)))) > 600:
         return {'construct_error': 'too large'}
     want = ['bond', 'exporters', 'convert', 'options'] if isinstance(m, M.NearestNeighborModel) else ['exporters', 'options']
+    want.append('extra')
     if isinstance(m, M.CouplingModel) and not isinstance(m, M.NearestNeighborModel):
         want.append('bond')
     unsorted_H = None
@@ -689,7 +908,8 @@ def run_predefined(case, npz_path):
             unsorted_H = cls(dict(case['params'], sort_mpo_legs=False)).H_MPO
         except Exception:
             unsorted_H = None
-    export_model(m, rec, {'segment': case.get('segment')}, want, case.get('nwin', 2), unsorted_H=unsorted_H)
+    export_model(m, rec, {'segment': case.get('segment'), 'psi_seed': case.get('psi_seed', 0)}, want, case.get('nwin', 2),
+                 unsorted_H=unsorted_H)
     np.savez(npz_path, **rec.mats)
     res = dict(rec.info)
     res['errors'] = rec.errors
@@ -732,14 +952,54 @@ def run_split_terms(cases):
     return out
 
 
+TRACE_FILES = ('tenpy/models/model.py', 'tenpy/networks/terms.py', 'tenpy/algorithms/exact_diag.py')
+_trace_hits = {}
+
+
+def start_trace():
+    """line coverage of the anchored source files inside this runner process (sys.monitoring: every line location reports
+    once and is then disabled, so the overhead is negligible)"""
+    mon = sys.monitoring
+    tool = mon.COVERAGE_ID
+    try:
+        mon.use_tool_id(tool, 'c10cov')
+    except ValueError:
+        return False
+    short = {}
+
+    def on_line(code, lineno):
+        fn = code.co_filename
+        s = short.get(fn)
+        if s is None:
+            s = ''
+            n = fn.replace(os.sep, '/')
+            for t in TRACE_FILES:
+                if n.endswith(t):
+                    s = t
+            short[fn] = s
+        if s:
+            _trace_hits.setdefault(s, set()).add(lineno)
+        return mon.DISABLE
+    mon.register_callback(tool, mon.events.LINE, on_line)
+    mon.set_events(tool, mon.events.LINE)
+    return True
+
+
+def trace_result():
+    return {k: sorted(v) for k, v in _trace_hits.items()}
+
+
 def main():
     fin, fout = sys.argv[1], sys.argv[2]
     payload = json.load(open(fin))
+    if payload.get('trace'):
+        start_trace()
     if payload.get('kind') == 'list_models':
         json.dump(list_models(), open(fout, 'w'))
         return
     if payload.get('kind') == 'split_terms':
-        json.dump(run_split_terms(payload['cases']), open(fout, 'w'))
+        res = run_split_terms(payload['cases'])
+        json.dump({'results': res, 'trace': trace_result()} if payload.get('trace') else res, open(fout, 'w'))
         return
     out = []
     base = os.path.splitext(fout)[0]
@@ -752,7 +1012,7 @@ def main():
                 out.append(run_predefined(case, npz))
         except Exception:
             out.append({'runner_error': traceback.format_exc()[-1500:]})
-    json.dump(out, open(fout, 'w'))
+    json.dump({'results': out, 'trace': trace_result()} if payload.get('trace') else out, open(fout, 'w'))
 
 
 if __name__ == '__main__':
